@@ -89,8 +89,7 @@ CLAIMED = {
     "C16": dict(engine="coq-conc", design="DESIGN.md 6 C16",
                 technique="machine-checked proof in Coq (invariant of the clocked interval/timer loop for every interleaving with the end of the subscription; a time-ordered machine for timeout that cancels / re-arms its deadline where the code does, proved equal to the definition for every period, gap script with consumer times and ending) + the extracted definitions as oracles on the implementation's (virtual time, event) pairs under a deterministic scheduling runtime",
                 text="Theorems C16_ticks_follow_clock (interval(d) delivers 0,1,2,... with tick k at clock (k+1)*d until the subscription ends; timer(d) at most one tick, at d), C16_timeout_follows_clock (items pass through at their arrival times; TimedOut exactly d after the sink of the "
-                     "first item followed by a longer silence and never otherwise; nothing afterwards - for every period, script and ending), C16_delay_by_d. PARTIAL: debounce and sample are decided by safety oracles on the implementation only (only source items of that "
-                     "subscription, in order, none twice); time_interval / timestamp are not checked (they read the real clock). Tie: periods 3-20 ms, gap scripts of 1-4 items with gaps around the period (never equal to it), endings complete / error / none, a consumer that "
+                     "first item followed by a longer silence and never otherwise; nothing afterwards - for every period, script and ending), C16_delay_by_d, C16_sample_debounce_in_order_once (the one-place slot between the source and the single consuming thread of sample / debounce: for every interleaving only emitted items, in source order, none twice). PARTIAL: WHEN debounce fires (its period) is not modelled; time_interval / timestamp are not checked (they read the real clock). Tie: periods 3-20 ms, gap scripts of 1-4 items with gaps around the period (never equal to it), endings complete / error / none, a consumer that "
                      "takes time, timer / interval / sampled Observables subscribed again; the extracted spec_timeout / spec_delay are evaluated on every script and compared with the (virtual time, event) pairs at the subscriber; interval/timer exact times."),
     "C17": dict(engine="coq-seq", design="DESIGN.md 6 C17",
                 technique="machine-checked proof in Coq (slot-emptiness lemmas on the worklist machine, the frozen invariant for every continuation, the node-level teardown theorem for the whole catalogue) + reference-counted tokens in every callback, operator closure and item on the implementation",
